@@ -2,6 +2,8 @@
 
 from __future__ import annotations
 
+import ast
+
 from .. import kir
 from ..report import Finding
 from ..rules.world import array_key
@@ -48,8 +50,90 @@ def check_pair_table_order(db, res):
   )
 
 
+# ------------------------------------------------------------------------------------------------ R-GATE.8
+def _tv(node, env, pair0):
+  """three-valued truth of a condition when the first pair id equals `pair0` (None = unknown)"""
+  if isinstance(node, ast.BoolOp):
+    vals = [_tv(v, env, pair0) for v in node.values]
+    if isinstance(node.op, ast.And):
+      return False if any(v is False for v in vals) else (True if all(v is True for v in vals) else None)
+    return True if any(v is True for v in vals) else (False if all(v is False for v in vals) else None)
+  if isinstance(node, ast.UnaryOp) and isinstance(node.op, ast.Not):
+    v = _tv(node.operand, env, pair0)
+    return None if v is None else not v
+  if isinstance(node, ast.Name) and node.id in env:
+    return _tv(env[node.id], env, pair0)
+  if isinstance(node, ast.Compare) and len(node.ops) == 1:
+    def val(n):
+      if isinstance(n, ast.Subscript) and isinstance(n.value, ast.Name) and "pairid" in n.value.id and isinstance(n.slice, ast.Constant) and n.slice.value == 0:
+        return pair0
+      if isinstance(n, ast.Name) and n.id in env:
+        return val(env[n.id])
+      try:
+        c = ast.literal_eval(n)
+        return c if isinstance(c, int) else None
+      except Exception:
+        return None
+    a, b = val(node.left), val(node.comparators[0])
+    if a is None or b is None:
+      return None
+    import operator as _op
+
+    f = {ast.Eq: _op.eq, ast.NotEq: _op.ne, ast.Lt: _op.lt, ast.LtE: _op.le, ast.Gt: _op.gt, ast.GtE: _op.ge}.get(type(node.ops[0]))
+    return f(a, b) if f else None
+  return None
+
+
+def check_constraint_bit_gate(sm, res) -> int:
+  """R-GATE.8: broadphase pairs that MuJoCo's filter rejects keep the pair id code -2 and only reach the contact writer
+  for the benefit of collision sensors. Every statement that puts ContactType.CONSTRAINT into a contact's type must sit
+  under a condition that is definitely false when the first pair id is -2 (decided by three-valued evaluation of the
+  enclosing `if` tests with pairid[0] := -2, single-assignment locals substituted)."""
+  n = 0
+  for mod in sm.modules.values():
+    if mod.name.endswith("_test"):
+      continue
+    for fn in ast.walk(mod.tree):
+      if not isinstance(fn, ast.FunctionDef):
+        continue
+      if not any(isinstance(a, ast.arg) and "pairid" in a.arg for a in fn.args.args):
+        continue
+      env = {}
+      counts = {}
+      for st in ast.walk(fn):
+        if isinstance(st, ast.Assign) and len(st.targets) == 1 and isinstance(st.targets[0], ast.Name):
+          counts[st.targets[0].id] = counts.get(st.targets[0].id, 0) + 1
+          env[st.targets[0].id] = st.value
+      env = {k: v for k, v in env.items() if counts[k] == 1}
+
+      def visit(stmts, conds):
+        nonlocal n
+        for st in stmts:
+          if isinstance(st, ast.If):
+            visit(st.body, conds + [(st.test, True)])
+            visit(st.orelse, conds + [(st.test, False)])
+            continue
+          if isinstance(st, (ast.For, ast.While, ast.With)):
+            visit(st.body, conds)
+            continue
+          if isinstance(st, (ast.Assign, ast.AugAssign)) and "ContactType.CONSTRAINT" in ast.unparse(st.value) and not isinstance(st.value, ast.Compare):
+            n += 1
+            excl = any((_tv(t, env, -2) is False) if pol else (_tv(t, env, -2) is True) for t, pol in conds)
+            res.ob(
+              excl,
+              f"{mod.name}.{fn.name}|constraint-bit|{n}",
+              Finding("R-GATE.8", f"{mod.name}.{fn.name}|ContactType.CONSTRAINT|not-gated-by-filter-code", f"`{ast.unparse(st)}` marks the contact as a constraint contact under [{' and '.join(('' if pol else 'not ') + ast.unparse(t) for t, pol in conds) or 'no condition'}], which does not exclude the pair id code -2 of pairs rejected by the contype/conaffinity, same-weld-body, parent-child and exclude filters (they reach the writer only for collision sensors)", f"{mod.path}:{st.lineno}"),
+              sample={"function": f"{mod.name}.{fn.name}", "statement": ast.unparse(st), "conditions": [ast.unparse(t) for t, _ in conds]},
+            )
+
+      visit(fn.body, [])
+  return n
+
+
 def run(db, res, tier):
   sm = db.sm
+  ngate = check_constraint_bit_gate(sm, res)
+  res.floor("statements setting ContactType.CONSTRAINT in pair-id aware writers (R-GATE.8)", ngate, 1)
   # (a1) NXN iterates the pre-filtered pair table and its pair ids
   nxn = [lc for lc in db.launch_ctxs() if lc.name == "collision_driver._nxn_broadphase.kernel"]
   sap = [lc for lc in db.launch_ctxs() if lc.name == "collision_driver._sap_broadphase.kernel"]
